@@ -33,8 +33,30 @@ def load():
     return _cache
 
 
-def module_sha(mod):
-    return hashlib.sha256(mod.text.encode()).hexdigest()
+def module_sha(mod, qual=None, inlined=()):
+    """hash of everything outside the function's own source that its VC depends on: module-level assignments whose
+    names the function (or an inlined callee) mentions, and the sources of inlined callees"""
+    import ast
+    from pyvc import source
+    parts = []
+    todo = [(mod, qual)] if qual else []
+    for key in inlined:
+        m, q = key.split(":")
+        try:
+            todo.append((source.load(m), q))
+        except Exception:
+            parts.append("missing:" + key)
+    for m, q in todo:
+        fn = m.functions.get(q)
+        if fn is None:
+            parts.append("missing:" + str(q))
+            continue
+        if (m, q) != (mod, qual):
+            parts.append(m.segment(fn))
+        names = {n.id for n in ast.walk(fn) if isinstance(n, ast.Name)}
+        for nm in sorted(names & set(m.assigns)):
+            parts.append(nm + "=" + m.segment(m.assigns[nm]))
+    return hashlib.sha256("\n".join(parts).encode()).hexdigest()
 
 
 def entry_key(pid, target):
